@@ -167,6 +167,8 @@ theorem mem_sortElems {e : Str × Str} {es : List (Str × Str)} : e ∈ sortElem
 theorem mem_sortExports {e : Export} {xs : List Export} : e ∈ sortExports xs ↔ e ∈ xs :=
   (List.mergeSort_perm xs _).mem_iff
 
+theorem sortExports_perm (xs : List Export) : (sortExports xs).Perm xs := List.mergeSort_perm xs _
+
 theorem arrayCmds_wf (abs : Str → Str) (s : Spec) (h : Spec.WF abs s) : ∀ c ∈ arrayCmds abs s, c.WF := by
   have hn := h.names
   have key : ∀ (ps : List (Str × Str)), (∀ np ∈ ps, np ∈ s.allPaths ++ s.depPaths ++ s.toolPaths) →
@@ -273,5 +275,62 @@ theorem exportEntries_withPath (abs : Str → Str) (s : Spec) :
   rw [mem_sortExports] at hy
   simp only [exportEntries, bobExports, List.mem_append, List.mem_cons, List.mem_nil_iff, or_false, List.mem_map] at hy
   rcases hy with (rfl | rfl | rfl) | ⟨kv, _, rfl⟩ <;> simp_all
+
+/-! ### lemmas used directly by the statements in Props/C13.lean -/
+
+theorem lookup_stepEnvOf (full : Env) (strong weak : List Str) (k : Str) :
+    lookup (stepEnvOf full strong weak) k = if k ∈ strong ∨ k ∈ weak then lookup full k else none := by
+  unfold stepEnvOf prune
+  split
+  · rename_i h
+    have : weak = [] := by simpa using h
+    subst this
+    rw [lookup_filter full (fun k => strong.contains k) k]
+    simp
+  · rw [lookup_filter full (fun k => (strong ++ weak).contains k) k]
+    simp
+
+theorem lookup_hostFilter (preserve : Bool) (wl : List Str) (host : Env) (k : Str) :
+    lookup (hostFilter preserve wl host) k = if preserve = true ∨ k ∈ wl then lookup host k else none := by
+  unfold hostFilter
+  cases preserve with
+  | true => simp
+  | false =>
+    simp only [Bool.false_eq_true, if_false, false_or]
+    rw [lookup_filter host (fun k => wl.contains k) k]
+    simp
+
+/-- `p` is one of the `:`-separated components of `v` -/
+def IsComponent (p v : Str) : Prop :=
+  ∃ pre post, v = pre ++ p ++ post ∧ (pre = [] ∨ ∃ q, pre = q ++ [':']) ∧ (post = [] ∨ ∃ q, post = ':' :: q)
+
+theorem isComponent_join : ∀ (l : List Str) (x : Str), x ∈ l → IsComponent x (joinWith [':'] l)
+  | [], _, h => by simp at h
+  | [y], x, h => by
+    have : x = y := by simpa using h
+    subst this
+    exact ⟨[], [], by simp [joinWith], Or.inl rfl, Or.inl rfl⟩
+  | y :: z :: r, x, h => by
+    rcases List.mem_cons.mp h with rfl | h
+    · exact ⟨[], ':' :: joinWith [':'] (z :: r), by simp [joinWith], Or.inl rfl, Or.inr ⟨_, rfl⟩⟩
+    · obtain ⟨pre, post, e, _, hpost⟩ := isComponent_join (z :: r) x h
+      refine ⟨y ++ ':' :: pre, post, by simp [joinWith, e], Or.inr ?_, hpost⟩
+      rcases ‹pre = [] ∨ ∃ q, pre = q ++ [':']› with rfl | ⟨q, rfl⟩
+      · exact ⟨y, by simp⟩
+      · exact ⟨y ++ ':' :: q, by simp⟩
+
+theorem setO_ok : ∀ t ∈ Consts.C13.fingerprintSetO, (stripPrefix kwSetO t).isSome = true ∧ t.contains '\n' = false := by
+  decide
+
+theorem stripPrefix_some : ∀ (p t r : Str), stripPrefix p t = some r → t = p ++ r
+  | [], t, r, h => by simp [stripPrefix] at h; simp [h]
+  | _ :: _, [], r, h => by simp [stripPrefix] at h
+  | a :: p, c :: t, r, h => by
+    simp only [stripPrefix] at h
+    split at h
+    · rename_i hac
+      rw [hac, stripPrefix_some p t r h]; rfl
+    · exact absurd h (by simp)
+
 
 end ShellEnv
